@@ -61,6 +61,7 @@ struct Ctx {
     const std::vector<rm::Coord>* leafOf[2] = {nullptr, nullptr};   // model leaf of particle index, per set (0 source/single, 1 target)
     const std::vector<std::vector<double>>* rows[2] = {nullptr, nullptr}; // expected data row of particle index (already converted to DataType, as double)
     std::unordered_map<const void*, CellId> multAddr, localAddr;
+    std::vector<gf::Val>* external[2] = {nullptr, nullptr};    // results per particle index when the tree stores no result value
     int copies = 0;
     // per-task access recording (C03): which task touched which object, and how
     struct Access { int task; const void* addr; bool write; };
@@ -72,7 +73,7 @@ struct Ctx {
     std::mutex mtx;
     bool threadSafe = false;
 
-    explicit Ctx(uint64_t salt) : P(salt){}
+    explicit Ctx(uint64_t salt, bool flat = false) : P(salt, flat){}
     void error(const std::string& e){ if(errors.size() < 20) errors.push_back(e); }
     long width(long level) const { return 1L << (base - level); }
     void reset(){ log.clear(); errors.clear(); accesses.clear(); kernelUse.clear(); for(int i = 0 ; i < NbOps ; ++i){ calls[i] = 0; elems[i] = 0; } }
@@ -90,6 +91,26 @@ private:
     int copyId;
 
     struct Guard { Ctx* c; explicit Guard(Ctx* in) : c(in){ if(c->threadSafe) c->mtx.lock(); } ~Guard(){ if(c->threadSafe) c->mtx.unlock(); } };
+
+    // results go to the particle result arrays, or (zero result values per particle, README "mesh elements") to a table
+    // indexed by the original particle index
+    template <class Rhs>
+    void addResult(Rhs& rhs, long i, long particleIndex, int set, const gf::Val& v) const {
+        if constexpr(std::tuple_size<typename std::decay<Rhs>::type>::value == 0){
+            if(ctx->external[set] && particleIndex >= 0 && size_t(particleIndex) < ctx->external[set]->size()) gf::addPlain((*ctx->external[set])[size_t(particleIndex)], v);
+            (void)rhs; (void)i;
+        }
+        else{
+            for(int k = 0 ; k < gf::NEVAL ; ++k) rhs[size_t(k)][i] = gf::add(rhs[size_t(k)][i], v.v[k]);
+            rhs[gf::NEVAL][i] += v.cnt;
+            (void)particleIndex; (void)set;
+        }
+    }
+    template <class Rhs>
+    void accessRhs(Rhs& rhs, const long int idx[]) const {
+        if constexpr(std::tuple_size<typename std::decay<Rhs>::type>::value == 0){ ctx->access(idx, true); (void)rhs; }
+        else ctx->access(rhs[0], true);
+    }
 
     template <class Header>
     static rm::Coord coordOf(const Header& h){ rm::Coord c{{0,0,0,0}}; for(int d = 0 ; d < Dim ; ++d) c[d] = h.boxCoord[d]; return c; }
@@ -330,17 +351,14 @@ public:
              const ParticlesClassValues& inOutParticles, ParticlesClassRhs& inOutParticlesRhs, const long int inNbParticles) const {
         Guard g(ctx);
         ctx->calls[OpL2P] += 1; ctx->elems[OpL2P] += 1;
-        ctx->useKernel(copyId); ctx->access(&inLeaf, false); ctx->access(inOutParticlesRhs[0], true);
+        ctx->useKernel(copyId); ctx->access(&inLeaf, false); accessRhs(inOutParticlesRhs, particlesIndexes);
         checkLeafArgs("L2P", ctx->tagTgt ? 1 : 0, inLeafIndex, particlesIndexes, inOutParticles, inNbParticles);
         if(ctx->checking){
             auto it = ctx->localAddr.find(&inLeaf);
             if(it != ctx->localAddr.end() && (it->second.level != ctx->height - 1 || it->second.c != coordOf(inLeafIndex)))
                 ctx->error("L2P: local object does not belong to the leaf cell named by the header");
         }
-        for(long i = 0 ; i < inNbParticles ; ++i){
-            for(int k = 0 ; k < gf::NEVAL ; ++k) inOutParticlesRhs[size_t(k)][i] = gf::add(inOutParticlesRhs[size_t(k)][i], inLeaf.v[k]);
-            inOutParticlesRhs[gf::NEVAL][i] += inLeaf.cnt;
-        }
+        for(long i = 0 ; i < inNbParticles ; ++i) addResult(inOutParticlesRhs, i, particlesIndexes[i], ctx->tagTgt ? 1 : 0, inLeaf);
         if(ctx->logging) ctx->log.push_back(LogEntry{OpL2P, long(ctx->height - 1), coordOf(inLeafIndex), coordOf(inLeafIndex), 0});
     }
 
@@ -351,7 +369,7 @@ public:
              ParticlesClassRhs& inOutParticlesRhs, const long int inNbOutParticles, const long arrayIndexSrc) const {
         Guard g(ctx);
         ctx->calls[OpP2P] += 1; ctx->elems[OpP2P] += 1;
-        ctx->useKernel(copyId); ctx->access(inOutParticlesRhs[0], true); ctx->access(inParticlesNeighborsRhs[0], true);
+        ctx->useKernel(copyId); accessRhs(inOutParticlesRhs, targetIndexes); accessRhs(inParticlesNeighborsRhs, neighborsIndexes);
         checkLeafArgs("P2P(source)", 0, inNeighborIndex, neighborsIndexes, inParticlesNeighbors, inNbParticlesNeighbors);
         checkLeafArgs("P2P(target)", 0, inTargetIndex, targetIndexes, inOutParticles, inNbOutParticles);
         const rm::Coord tc = coordOf(inTargetIndex), sc = coordOf(inNeighborIndex);
@@ -364,14 +382,10 @@ public:
         gf::Val sumSrc = gf::zero(), sumTgt = gf::zero();
         for(long j = 0 ; j < inNbParticlesNeighbors ; ++j){ for(int k = 0 ; k < gf::NEVAL ; ++k) sumSrc.v[k] = gf::add(sumSrc.v[k], ctx->P.weight(k, neighborsIndexes[j], ctx->tagSrc)); sumSrc.cnt += 1; }
         for(long i = 0 ; i < inNbOutParticles ; ++i){ for(int k = 0 ; k < gf::NEVAL ; ++k) sumTgt.v[k] = gf::add(sumTgt.v[k], ctx->P.weight(k, targetIndexes[i], ctx->tagSrc)); sumTgt.cnt += 1; }
-        for(long i = 0 ; i < inNbOutParticles ; ++i){
-            for(int k = 0 ; k < gf::NEVAL ; ++k) inOutParticlesRhs[size_t(k)][i] = gf::add(inOutParticlesRhs[size_t(k)][i], gf::mul(sumSrc.v[k], f[k]));
-            inOutParticlesRhs[gf::NEVAL][i] += sumSrc.cnt;
-        }
-        for(long j = 0 ; j < inNbParticlesNeighbors ; ++j){
-            for(int k = 0 ; k < gf::NEVAL ; ++k) inParticlesNeighborsRhs[size_t(k)][j] = gf::add(inParticlesNeighborsRhs[size_t(k)][j], gf::mul(sumTgt.v[k], fi[k]));
-            inParticlesNeighborsRhs[gf::NEVAL][j] += sumTgt.cnt;
-        }
+        gf::Val toTgt = gf::zero(), toSrc = gf::zero();
+        gf::addShifted(toTgt, sumSrc, f); gf::addShifted(toSrc, sumTgt, fi);
+        for(long i = 0 ; i < inNbOutParticles ; ++i) addResult(inOutParticlesRhs, i, targetIndexes[i], 0, toTgt);
+        for(long j = 0 ; j < inNbParticlesNeighbors ; ++j) addResult(inParticlesNeighborsRhs, j, neighborsIndexes[j], 0, toSrc);
         if(ctx->logging) ctx->log.push_back(LogEntry{OpP2P, long(ctx->height - 1), tc, sc, arrayIndexSrc});
     }
 
@@ -382,7 +396,7 @@ public:
                 const long arrayIndexSrc) const {
         Guard g(ctx);
         ctx->calls[OpP2PTsm] += 1; ctx->elems[OpP2PTsm] += 1;
-        ctx->useKernel(copyId); ctx->access(inOutParticlesRhs[0], true);
+        ctx->useKernel(copyId); accessRhs(inOutParticlesRhs, targetIndexes);
         checkLeafArgs("P2PTsm(source)", 0, inNeighborIndex, neighborsIndexes, inParticlesNeighbors, inNbParticlesNeighbors);
         checkLeafArgs("P2PTsm(target)", 1, inTargetIndex, targetIndexes, inOutParticles, inNbOutParticles);
         const rm::Coord tc = coordOf(inTargetIndex), sc = coordOf(inNeighborIndex);
@@ -392,10 +406,8 @@ public:
         uint64_t f[gf::NEVAL]; shiftFactors(off, 1, f);
         gf::Val sumSrc = gf::zero();
         for(long j = 0 ; j < inNbParticlesNeighbors ; ++j){ for(int k = 0 ; k < gf::NEVAL ; ++k) sumSrc.v[k] = gf::add(sumSrc.v[k], ctx->P.weight(k, neighborsIndexes[j], ctx->tagSrc)); sumSrc.cnt += 1; }
-        for(long i = 0 ; i < inNbOutParticles ; ++i){
-            for(int k = 0 ; k < gf::NEVAL ; ++k) inOutParticlesRhs[size_t(k)][i] = gf::add(inOutParticlesRhs[size_t(k)][i], gf::mul(sumSrc.v[k], f[k]));
-            inOutParticlesRhs[gf::NEVAL][i] += sumSrc.cnt;
-        }
+        gf::Val toTgt = gf::zero(); gf::addShifted(toTgt, sumSrc, f);
+        for(long i = 0 ; i < inNbOutParticles ; ++i) addResult(inOutParticlesRhs, i, targetIndexes[i], 1, toTgt);
         if(ctx->logging) ctx->log.push_back(LogEntry{OpP2PTsm, long(ctx->height - 1), tc, sc, arrayIndexSrc});
     }
 
@@ -404,14 +416,15 @@ public:
                   ParticlesClassRhs& inOutParticlesRhs, const long int inNbOutParticles) const {
         Guard g(ctx);
         ctx->calls[OpP2PInner] += 1; ctx->elems[OpP2PInner] += 1;
-        ctx->useKernel(copyId); ctx->access(inOutParticlesRhs[0], true);
+        ctx->useKernel(copyId); accessRhs(inOutParticlesRhs, targetIndexes);
         checkLeafArgs("P2PInner", 0, inLeafIndex, targetIndexes, inOutParticles, inNbOutParticles);
         gf::Val sum = gf::zero();
         for(long i = 0 ; i < inNbOutParticles ; ++i){ for(int k = 0 ; k < gf::NEVAL ; ++k) sum.v[k] = gf::add(sum.v[k], ctx->P.weight(k, targetIndexes[i], ctx->tagSrc)); sum.cnt += 1; }
         for(long i = 0 ; i < inNbOutParticles ; ++i){
-            for(int k = 0 ; k < gf::NEVAL ; ++k)
-                inOutParticlesRhs[size_t(k)][i] = gf::add(inOutParticlesRhs[size_t(k)][i], gf::sub(sum.v[k], ctx->P.weight(k, targetIndexes[i], ctx->tagSrc)));
-            inOutParticlesRhs[gf::NEVAL][i] += sum.cnt - 1;
+            gf::Val v = sum;
+            for(int k = 0 ; k < gf::NEVAL ; ++k) v.v[k] = gf::sub(sum.v[k], ctx->P.weight(k, targetIndexes[i], ctx->tagSrc));
+            v.cnt = sum.cnt - 1;
+            addResult(inOutParticlesRhs, i, targetIndexes[i], 0, v);
         }
         if(ctx->logging) ctx->log.push_back(LogEntry{OpP2PInner, long(ctx->height - 1), coordOf(inLeafIndex), coordOf(inLeafIndex), 0});
     }
